@@ -25,6 +25,12 @@ func c14(p *core.Prog, r *core.Report) {
 	c14Handler(p, r)
 	c14Relay(p, r)
 	c14Cancel(p, r)
+	// the caller's own wait ends with its context: every blocking wait on the
+	// call path has a context arm (shared with C05-R1)
+	r.Rule("C14-R5", "E4c blocking/ctx", 8, "every blocking wait of a call ends with the caller's context (shared with C05)")
+	r.Alias("C05-R1", "C14-R5")
+	c05Blocking(p, r)
+	r.Alias("C05-R1", "")
 }
 
 func c14TTL(p *core.Prog, r *core.Report) {
@@ -208,6 +214,7 @@ func c14Relay(p *core.Prog, r *core.Report) {
 	}
 	if f := mustFunc(p, r, "", "lazyCallReq", "SetTTL"); f != nil {
 		okDiv, okPut := false, false
+		nPut := 0
 		core.EachInstr(f, func(i ssa.Instruction) {
 			if bo, isB := i.(*ssa.BinOp); isB && bo.Op == token.QUO {
 				if k, isK := core.ConstInt(bo.Y); isK && k == msNanos {
@@ -219,7 +226,11 @@ func c14Relay(p *core.Prog, r *core.Report) {
 					if sl, isSl := core.CallArgs(c)[1].(*ssa.Slice); isSl {
 						lo, _ := core.ConstInt(sl.Low)
 						hi, _ := core.ConstInt(sl.High)
-						okPut = lo == 1 && hi == 5
+						if nPut == 0 {
+							okPut = true
+						}
+						nPut++
+						okPut = okPut && lo == 1 && hi == 5
 					}
 				}
 			}
@@ -257,6 +268,8 @@ func c14Relay(p *core.Prog, r *core.Report) {
 }
 
 func c14Cancel(p *core.Prog, r *core.Report) {
+	// a handler's context is cancelled when its connection fails: write failures reach connectionError too
+	ioErrorsReachConnectionError(p, r, "C14-R4")
 	optGuard := func(i ssa.Instruction, field string, pol bool) bool {
 		return factsAt(i.Block()).hasBool(func(v ssa.Value) bool { fl := core.LoadedField(v); return fl != nil && fl.Name() == field }, pol)
 	}
@@ -267,7 +280,9 @@ func c14Cancel(p *core.Prog, r *core.Report) {
 				if fl := core.LoadedField(c.Call.Value); fl != nil && fl.Name() == "cancel" {
 					// on every path (not under a condition that can skip it)
 					miss := core.ReachAvoiding(f, nil, core.IsReturn, func(j ssa.Instruction) bool { return j == i }, nil)
-					ok = !miss.Found
+					if !miss.Found {
+						ok = true
+					}
 				}
 			}
 		})
